@@ -10,15 +10,18 @@ package c01
 
 import (
 	"os"
+	"strings"
 	"testing"
 	"time"
 
 	"verif/hist"
+	"verif/sched"
 	"verif/vlib"
 )
 
 func TestCheck(t *testing.T) {
-	hist.ServeIfWorker(t)
+	reg := sched.Registry{"c01join": joinHarness}
+	hist.ServeIfWorker2(t, sched.ServeJob(t, reg))
 	if f := os.Getenv("VERIF_REPLAY"); f != "" {
 		hist.Replay(t, f)
 	}
@@ -55,6 +58,28 @@ func TestCheck(t *testing.T) {
 		hj = append(hj, hist.Job{Name: j.name, Cfg: j.cfg, Depth: j.depth, Budget: j.budget})
 	}
 	cov := hist.RunJobs(run, hj)
+	// Part B: a replica joining through a snapshot while the primary commits, every schedule up to the preemption bound.
+	{
+		pool := vlib.NewPool()
+		pool.CaseTimeout = 10 * time.Minute
+		bound := 2
+		if run.Thorough() {
+			bound = 3
+		}
+		var info []any
+		for _, cfg := range []JoinCfg{{WAL: false}, {WAL: true}} {
+			var tot sched.Totals
+			sched.Distributed(t, run, pool, reg, "c01join", cfg, bound, 3, 5*time.Minute, &tot)
+			info = append(info, map[string]any{"config": cfg, "schedules": tot.Executions, "outcomes": tot.Outcomes, "max_points": tot.MaxPoints, "capped": tot.Capped})
+			for k := range tot.Outcomes {
+				if strings.HasPrefix(k, "harness-error") {
+					run.HarnessError("%+v: %s", cfg, k)
+				}
+			}
+		}
+		pool.Close()
+		cov["join_by_snapshot_racing_a_commit"] = map[string]any{"preemption_bound": bound, "configs": info}
+	}
 	run.Finish(cov, append(hist.CommonAssumptions,
 		"Mid-burst interleavings (stream vs commit at lock granularity) are the schedule search's subject (see C10/C11/C13 engines), not this history search."))
 }
